@@ -217,6 +217,7 @@ func init() {
 		Not:  "Crash-freedom, termination, bounded allocation and in-bounds access are NOT decided: a length-guard prover was prototyped and left 181 of 453 slice accesses unproven (value relations between cached lengths and slices), so it is not armed (DESIGN.md §6.1).",
 		Run: func(c *Ctx) {
 			c.ruleRatchets("C05")
+			c.ruleDecoderErrorType("E5.decoder-error-type", 20)
 			c.ruleSessionOptionsRefreshed("E6.session-options", map[string]bool{"extendedMessage": true, "familyMap": true, "twoByteAsTrans": true}, 3)
 			c.ruleInputImmutable("E2c.input", []string{"pkg/packet/bgp"}, 120)
 			c.ruleNarrowGuard("E5.narrow-guard", []string{"pkg/packet/bgp"}, 2)
